@@ -171,6 +171,7 @@ func c14(c *core.Check) {
 	c14nilStorage(c)
 	c14blackStar(c)
 	c14descUnwrapped(c)
+	c14emptySets(c)
 }
 
 // newPathTokenTotal: the panic in newPathToken's default arm is unreachable: every call passes a constant pathType that
